@@ -225,7 +225,8 @@ class Tr:
         out = []
         for e in elts:
             if isinstance(e, ast.Attribute):
-                out.append(e.attr)
+                # `ube.UBXTypeError` → "UBXTypeError" (module alias dropped), `struct.error` → "struct.error"
+                out.append(self.dotted(e) or e.attr)
             elif isinstance(e, ast.Name):
                 out.append(e.id)
             else:
